@@ -4,7 +4,7 @@
 
 use std::collections::BTreeMap;
 
-use e5_harness::*;
+use crate::harness::*;
 
 use crate::corpus::*;
 use crate::oracle::*;
